@@ -211,7 +211,9 @@ func lexerGoroutines() int {
 
 // parseOne applies the oracle to one text; returns a violation message or "".
 func parseOne(text string) (msg string, rejected bool) {
-	const name = "in.yang"
+	// the name the input goes by: a bare file name or a path (the error must name the input as it was given, two
+	// files of the same name in different directories are different inputs)
+	name := []string{"in.yang", "dir/sub/in.yang", "./in.yang", "/usr/share/yang/vendor-a/in.yang", "a b/in.yang", "../in.yang", "in.yang"}[len(text)%7]
 	before := runtime.NumGoroutine()
 	var tree *parse.Tree
 	var err error
@@ -235,7 +237,7 @@ func parseOne(text string) (msg string, rejected bool) {
 		txt := err.Error()
 		ok := false
 		for _, m := range locRe.FindAllStringSubmatch(txt, -1) {
-			if m[1] != name {
+			if !strings.HasSuffix(name, m[1]) || !strings.Contains(txt, name+":"+m[2]+":"+m[3]) {
 				continue
 			}
 			line, _ := strconv.Atoi(m[2])
